@@ -4,7 +4,7 @@
    container, writer and reader), C05/TskFile.v (tskit's column schema layer). *)
 From Coq Require Import List ZArith Permutation Sorted.
 From TskVerif Require Import Base.Common Gen.Generated C05.Bytes C05.Kastore C05.KastoreProofs C05.TskFile
-  C05.TskProofs C05.StreamProofs C05.SearchProofs C10.TruncProofs.
+  C05.TskProofs C05.StreamProofs C05.SearchProofs C05.Equals C05.EqualsProofs C10.TruncProofs.
 Import ListNotations.
 Open Scope Z_scope.
 
@@ -75,3 +75,11 @@ Proof. exact StreamProofs.stream_multi. Qed.
    format error or with a successfully read object *)
 Theorem eof_iff_empty : forall read_all s, kas_open read_all s = Err E_EOF <-> s = [].
 Proof. exact TruncProofs.eof_iff_empty. Qed.
+
+(* equality: tsk_table_collection_equals (and the per-table / reference-sequence functions it
+   calls) returns true exactly when every component that is not ignored is byte-equal, for
+   well-formed collections and every one of the 64 option sets.  The model [tc_equals] is compared
+   with TableCollection.equals on every generated pair x all option sets on every run. *)
+Theorem equals_spec : forall o a b, wf_tcoll a -> wf_tcoll b ->
+  (tc_equals o a b = true <-> equals_meaning o a b).
+Proof. exact EqualsProofs.equals_spec. Qed.
